@@ -259,12 +259,405 @@ Proof.
       * intros r0 l0 Hne P0. exists l0. split; [apply (pheld_frame s s' r k r0 l0 E Hne); exact P0|]. auto.
       * intros r0 l0 Hne P0. exists l0. split; [apply (pheld_frame s s' r k r0 l0 E Hne); exact P0|reflexivity].
       * exact Hnot.
-    + cbn [wb]. split; [|exact I]. unfold wb_rec. change (a_lock e) with true. cbv iota. split; [|exact F1].
-      destruct (aget L (a_key e)) as [e0|] eqn:Ee; [|reflexivity]. exfalso.
-      destruct (wl_a _ _ HL _ _ Ee) as (r1 & l1 & P1 & Hk1 & _).
-      assert (r1 = r). { destruct P1 as (R1 & Q1 & _). apply (shape_held_unique s r1 l1 r l Hsh R1 Hr); try lia. congruence. }
-      subst r1. apply (Hnot l1 P1).
-    + constructor; [rewrite F6; lia|constructor].
+    + assert (Hn : aget L (a_key e) = None).
+      { destruct (aget L (a_key e)) as [e0|] eqn:Ee; [|reflexivity]. exfalso.
+        destruct (wl_a _ _ HL _ _ Ee) as (r1 & l1 & P1 & Hk1 & _).
+        assert (r1 = r). { destruct P1 as (R1 & Q1 & _). apply (shape_held_unique s r1 l1 r l Hsh R1 Hr); try lia; congruence. }
+        subst r1. apply (Hnot l1 P1). }
+      cbn [wb]. split; [|exact I]. unfold wb_rec. change (a_lock e) with true. cbv iota. split; [exact Hn|exact F1].
+    + constructor; [change (a_ctime e <= now s)%Z; rewrite F6; lia|constructor].
     + apply (ef_same _ _ _ _ E).
     + rewrite (ef_next _ _ _ _ E). lia.
+Qed.
+
+(* ------------------------------------------------------------------ doExpried (with its wake-up pass), any reference *)
+Lemma aofs_of_nil_r ev : aofs_of (ev ++ []) = aofs_of ev.
+Proof. rewrite app_nil_r. reflexivity. Qed.
+
+Lemma ws_dead_facts s r l : WS s -> aget (store s) r = Some l -> l_expried l = true ->
+  l_locked l = 0 /\ l_ack l = 255 /\ exists m, aget (mgrs s) (l_key l) = Some m.
+Proof.
+  intros H Hr Hx. destruct (sh_rec _ (ws_shape _ H) _ _ Hr) as (A1 & _ & _ & _ & [[Z _]|(_ & X & _)]); [|congruence].
+  csplit; auto. destruct (aget (mgrs s) (l_key l)) as [m|] eqn:E; [exists m; reflexivity|].
+  exfalso. apply (proj2 (ws_cnt _ H) r l Hr E).
+Qed.
+
+Lemma ws_held_facts s r l : WS s -> aget (store s) r = Some l -> l_expried l = false ->
+  l_locked l = 1 /\ c_tflag (l_cmd l) = 0 /\ exists m, aget (mgrs s) (l_key l) = Some m.
+Proof.
+  intros H Hr Hx. destruct (sh_rec _ (ws_shape _ H) _ _ Hr) as (_ & _ & _ & (_ & _ & At & _) & [[_ X]|(Z & _ & m & Hm & _)]); [congruence|].
+  csplit; auto. exists m. exact Hm.
+Qed.
+
+Lemma wstep_unref_rm s L r l :
+  WS s -> WL s L -> next s < B32 -> aget (store s) r = Some l -> l_expried l = true ->
+  wstep s L (unref_rm s r (l_key l)) [] /\ next (unref_rm s r (l_key l)) = next s.
+Proof.
+  intros H HL Hb Hr Hx. destruct (ws_dead_facts s r l H Hr Hx) as (Hz & Ha & m & Hm).
+  destruct (unref_rm_spec s r (l_key l) l m Hr eq_refl Hm Hz Ha) as (E & D).
+  split; [apply (wstep_dropped s L _ r (l_key l) l m); auto|apply (ef_next _ _ _ _ E)].
+Qed.
+
+Lemma wstep_do_expried s L r :
+  WS s -> WL s L -> next s < B32 ->
+  exists s' ev, finish (do_expried s r) = (s', ev) /\ wstep s L s' (aofs_of ev) /\ next s' = next s.
+Proof.
+  intros H HL Hb. destruct (aget (store s) r) as [l|] eqn:Hr.
+  - destruct (l_expried l) eqn:Hx.
+    + rewrite (do_expried_dead s r l Hr Hx). cbn [finish]. eexists. eexists. split; [reflexivity|].
+      cbn [aofs_of flat_map]. apply (wstep_unref_rm s L r l H HL Hb Hr Hx).
+    + destruct (ws_held_facts s r l H Hr Hx) as (Hl & At & m & Hm).
+      destruct (do_expried_held s r l m (ws_shape _ H) (ws_leader _ H) Hr Hx Hm) as (s' & ev & P & REL & EV).
+      rewrite At in EV. change (if has 0 TF_REQUIRE_ACKED then Some r else None) with (@None ref) in EV.
+      pose proof (wstep_released s L s' r (l_key l) l m None AOF_FLAG_EXPRIED H HL Hb Hr eq_refl Hl Hm REL eq_refl) as WT.
+      rewrite <- EV in WT.
+      rewrite P, (finish_nowait s' ev (l_key l) None (shape_nowait s' _ (ws_shape _ (wt_ws _ _ _ _ WT)))).
+      eexists. eexists. split; [reflexivity|]. rewrite aofs_of_nil_r. split; [exact WT|].
+      destruct REL as (E & _). apply (ef_next _ _ _ _ E).
+  - destruct (do_expried_absent s r Hr) as (ev & P & EV). rewrite P. cbn [finish].
+    exists s, ev. split; [reflexivity|]. rewrite EV. split; [apply wstep_refl; assumption|reflexivity].
+Qed.
+
+Lemma fire_all_expried_ok due : forall s L,
+  WS s -> WL s L -> next s < B32 ->
+  exists s' ev, fire_all do_expried s due = (s', ev) /\ wstep s L s' (aofs_of ev) /\ next s' = next s.
+Proof.
+  induction due as [|r due IH]; intros s L H HL Hb.
+  - exists s, []. split; [reflexivity|]. split; [apply wstep_refl; assumption|reflexivity].
+  - cbn [fire_all]. destruct (wstep_do_expried s L r H HL Hb) as (s1 & e1 & P1 & W1 & N1). rewrite P1.
+    destruct (IH s1 (fold_left lstep (aofs_of e1) L) (wt_ws _ _ _ _ W1) (wt_wl _ _ _ _ W1)) as (s2 & e2 & P2 & W2 & N2); [lia|].
+    rewrite P2. exists s2, (e1 ++ e2). split; [reflexivity|]. rewrite aofs_of_app.
+    split; [apply (wstep_trans0 s L s1 _ s2 _ W1 N1 W2)|lia].
+Qed.
+
+(* ------------------------------------------------------------------ the collecting loops of checkExpried *)
+Lemma sweep_e_slot_ok slot nowv fuel : forall s L due ev0,
+  WS s -> WL s L -> next s < B32 -> now s = nowv ->
+  exists s' due' ev', sweep_e_slot fuel s slot nowv due ev0 = (s', due', ev0 ++ ev') /\
+                      wstep s L s' (aofs_of ev') /\ next s' = next s.
+Proof.
+  induction fuel as [|f IH]; intros s L due ev0 H HL Hb Hnow.
+  - exists s, due, []. cbn [sweep_e_slot]. rewrite app_nil_r. split; [reflexivity|]. split; [apply wstep_refl; assumption|reflexivity].
+  - cbn [sweep_e_slot]. destruct (wheel_get (ewheel s) slot) as [|r rest].
+    + exists s, due, []. rewrite app_nil_r. split; [reflexivity|]. split; [apply wstep_refl; assumption|reflexivity].
+    + set (s1 := s <| ewheel := aset (ewheel s) slot rest |>).
+      assert (W1 : wstep s L s1 []) by (apply wstep_fields; auto; split; reflexivity).
+      assert (N1 : next s1 = next s) by reflexivity.
+      pose proof (wt_ws _ _ _ _ W1) as H1. pose proof (wt_wl _ _ _ _ W1) as HL1. cbn [fold_left] in HL1.
+      destruct (aget (store s1) r) as [l|] eqn:Hr.
+      * rewrite (getl_some _ _ _ Hr). cbv iota. destruct (l_expried l) eqn:Hx; cbn [negb]; cbv iota.
+        -- (* released record: drop the wheel reference *)
+           destruct (wstep_unref_rm s1 L r l H1 HL1 ltac:(lia) Hr Hx) as (W2 & N2).
+           destruct (IH (unref_rm s1 r (l_key l)) L due ev0 (wt_ws _ _ _ _ W2) (wt_wl _ _ _ _ W2)) as (s' & due' & ev' & P & W3 & N3).
+           { lia. } { rewrite (ss_now _ _ (wt_same _ _ _ _ W2)). exact Hnow. }
+           exists s', due', ev'. split; [exact P|]. split; [|lia].
+           apply (wstep_trans0 s L s1 [] s' _ W1 N1). apply (wstep_trans0 s1 L _ [] s' _ W2 N2 W3).
+        -- destruct (nowv <? l_eT l)%Z eqn:Hlive.
+           ++ (* live hold: re-check *)
+              destruct (ws_held_facts s1 r l H1 Hr Hx) as (Hl & At & m & Hm).
+              set (s2 := updl s1 r (fun l0 => l0 <| l_ecc := (l_ecc l0 + 1) mod 256 |>)).
+              set (l2 := l <| l_ecc := (l_ecc l + 1) mod 256 |>).
+              assert (R2 : aget (store s2) r = Some l2) by (exact (aget_updl_same s1 r _ l Hr)).
+              assert (W2 : wstep s1 L s2 []).
+              { apply (wstep_core s1 L s2 r (l_key l) l l2); auto; [apply eff_updl|repeat split|subst s2; rewrite mgrs_updl; reflexivity]. }
+              assert (N2 : next s2 = next s1) by apply next_updl.
+              pose proof (wt_ws _ _ _ _ W2) as H2. pose proof (wt_wl _ _ _ _ W2) as HL2. cbn [fold_left] in HL2.
+              assert (M2 : aget (mgrs s2) (l_key l2) = Some m) by (subst s2; rewrite mgrs_updl; exact Hm).
+              destruct (wstep_add_expried s2 L r l2 m H2 HL2 R2 Hl M2) as (s3 & aev & P3 & W3 & N3).
+              { subst s2 l2. rewrite now_updl. cbn [l_eT set]. change (now s1) with (now s). lia. }
+              change (l_key l2) with (l_key l) in P3. rewrite P3.
+              destruct (IH s3 (fold_left lstep (aofs_of aev) L) due (ev0 ++ aev) (wt_ws _ _ _ _ W3) (wt_wl _ _ _ _ W3)) as (s' & due' & ev' & P & W4 & N4).
+              { lia. } { rewrite (ss_now _ _ (wt_same _ _ _ _ W3)). subst s2. rewrite now_updl. exact Hnow. }
+              rewrite P. exists s', due', (aev ++ ev'). split; [rewrite app_assoc; reflexivity|]. split; [|lia].
+              rewrite aofs_of_app.
+              apply (wstep_trans0 s L s1 [] s' _ W1 N1). apply (wstep_trans0 s1 L s2 [] s' _ W2 N2).
+              apply (wstep_trans0 s2 L s3 _ s' _ W3 N3 W4).
+           ++ destruct (IH s1 L (due ++ [r]) ev0 H1 HL1) as (s' & due' & ev' & P & W3 & N3); [lia|exact Hnow|].
+              rewrite P. exists s', due', ev'. split; [reflexivity|]. split; [|lia].
+              apply (wstep_trans0 s L s1 [] s' _ W1 N1 W3).
+      * cbv iota. exists s1, (due ++ [r]), []. rewrite app_nil_r. split; [reflexivity|]. split; [exact W1|exact N1].
+Qed.
+
+Lemma sweep_long_e_ok items : forall s L due,
+  WS s -> WL s L -> next s < B32 ->
+  exists s' due', sweep_long s items false due = (s', due') /\ wstep s L s' [] /\ next s' = next s.
+Proof.
+  induction items as [|r items IH]; intros s L due H HL Hb.
+  - exists s, due. split; [reflexivity|]. split; [apply wstep_refl; assumption|reflexivity].
+  - cbn [sweep_long]. destruct (aget (store s) r) as [l0|] eqn:Hr.
+    + set (s1 := updl s r (fun l => l <| l_long := false |>)).
+      set (l1 := l0 <| l_long := false |>).
+      assert (R1 : aget (store s1) r = Some l1) by (exact (aget_updl_same s r _ l0 Hr)).
+      assert (W1 : wstep s L s1 []).
+      { apply (wstep_core s L s1 r (l_key l0) l0 l1); auto; [apply eff_updl|repeat split|subst s1; rewrite mgrs_updl; reflexivity]. }
+      assert (N1 : next s1 = next s) by apply next_updl.
+      pose proof (wt_ws _ _ _ _ W1) as H1. pose proof (wt_wl _ _ _ _ W1) as HL1. cbn [fold_left] in HL1.
+      rewrite (getl_some _ _ _ R1). destruct (l_expried l1) eqn:Hx; cbn [negb]; cbv iota.
+      * destruct (wstep_unref_rm s1 L r l1 H1 HL1 ltac:(lia) R1 Hx) as (W2 & N2).
+        destruct (IH (unref_rm s1 r (l_key l1)) L due (wt_ws _ _ _ _ W2) (wt_wl _ _ _ _ W2)) as (s' & due' & P & W3 & N3); [lia|].
+        exists s', due'. split; [exact P|]. split; [|lia].
+        apply (wstep_trans0 s L s1 [] s' [] W1 N1). apply (wstep_trans0 s1 L _ [] s' [] W2 N2 W3).
+      * destruct (IH s1 L (due ++ [r]) H1 HL1) as (s' & due' & P & W3 & N3); [lia|].
+        exists s', due'. split; [exact P|]. split; [|lia]. apply (wstep_trans0 s L s1 [] s' [] W1 N1 W3).
+    + assert (E1 : updl s r (fun l => l <| l_long := false |>) = s) by (unfold updl; rewrite Hr; reflexivity).
+      rewrite E1. assert (E2 : getl s r = dummy_lock) by (unfold getl; rewrite Hr; reflexivity). rewrite E2.
+      cbn [l_expried dummy_lock negb l_key]. cbv iota.
+      assert (E3 : unref s r = s) by (unfold unref; rewrite Hr; reflexivity). rewrite E3, Hr.
+      pose proof (wstep_rmmgr s L 0 H HL) as W1.
+      assert (N1 : next (remove_mgr_if_unref s 0) = next s) by (apply (remove_mgr_spec s 0)).
+      destruct (IH (remove_mgr_if_unref s 0) L due (wt_ws _ _ _ _ W1) (wt_wl _ _ _ _ W1)) as (s' & due' & P & W3 & N3); [lia|].
+      exists s', due'. split; [exact P|]. split; [|lia]. apply (wstep_trans0 s L _ [] s' [] W1 N1 W3).
+Qed.
+
+Lemma collect_expiries_ok s L t nowv :
+  WS s -> WL s L -> next s < B32 -> now s = nowv ->
+  exists s' due ev, collect_expiries s t nowv = (s', due, ev) /\ wstep s L s' (aofs_of ev) /\ next s' = next s.
+Proof.
+  intros H HL Hb Hnow. unfold collect_expiries.
+  destruct (sweep_e_slot_ok (slot_of t) nowv (10 * length (wheel_get (ewheel s) (slot_of t)) + 10) s L [] [] H HL Hb Hnow)
+    as (s1 & due1 & ev1 & P1 & W1 & N1).
+  rewrite P1. cbn [app].
+  destruct (aget (elong s1) (lkey t)) as [items|] eqn:El.
+  - set (s2 := s1 <| elong := adel (elong s1) (lkey t) |>).
+    assert (W2 : wstep s1 (fold_left lstep (aofs_of ev1) L) s2 []).
+    { apply wstep_fields; auto; try apply W1. split; reflexivity. }
+    destruct (sweep_long_e_ok items s2 _ due1 (wt_ws _ _ _ _ W2) (wt_wl _ _ _ _ W2)) as (s3 & due3 & P3 & W3 & N3).
+    { change (next s2) with (next s1). lia. }
+    rewrite P3. exists s3, due3, ev1. split; [reflexivity|]. split; [|change (next s2) with (next s1) in N3; lia].
+    rewrite <- (app_nil_r (aofs_of ev1)). apply (wstep_trans0 s L s1 _ s3 [] W1 N1).
+    apply (wstep_trans0 s1 _ s2 [] s3 [] W2 eq_refl W3).
+  - exists s1, due1, ev1. split; [reflexivity|]. split; assumption.
+Qed.
+
+Lemma sweep_e_secs_ok nowv n : forall s L t,
+  WS s -> WL s L -> next s < B32 -> now s = nowv ->
+  exists s' ev, sweep_e_secs n s t nowv = (s', ev) /\ wstep s L s' (aofs_of ev) /\ next s' = next s.
+Proof.
+  induction n as [|n IH]; intros s L t H HL Hb Hnow.
+  - exists s, []. split; [reflexivity|]. split; [apply wstep_refl; assumption|reflexivity].
+  - cbn [sweep_e_secs].
+    destruct (collect_expiries_ok s L t nowv H HL Hb Hnow) as (s1 & due & e1 & P1 & W1 & N1). rewrite P1.
+    destruct (fire_all_expried_ok due s1 _ (wt_ws _ _ _ _ W1) (wt_wl _ _ _ _ W1)) as (s2 & e2 & P2 & W2 & N2); [lia|].
+    rewrite P2.
+    pose proof (wstep_trans0 s L s1 _ s2 _ W1 N1 W2) as W12.
+    destruct (IH s2 _ (t + 1)%Z (wt_ws _ _ _ _ W12) (wt_wl _ _ _ _ W12)) as (s3 & e3 & P3 & W3 & N3).
+    { lia. } { rewrite (ss_now _ _ (wt_same _ _ _ _ W12)). exact Hnow. }
+    rewrite P3. exists s3, (e1 ++ e2 ++ e3). split; [reflexivity|]. split; [|lia].
+    rewrite !aofs_of_app, app_assoc. apply (wstep_trans0 s L s2 _ s3 _ W12 ltac:(lia) W3).
+Qed.
+
+(* ------------------------------------------------------------------ the sub-language *)
+Definition sub_lock (c : cmd) : Prop :=
+  c_lock c = true /\ c_flag c = 0 /\ c_tflag c = 0 /\ c_timeout c = 0 /\ unit_seconds (c_eflag c)
+  /\ 0 < c_expried c <= 65534 /\ c_count c = 0 /\ c_rcount c = 0 /\ c_data c = None.
+Definition sub_unlock (c : cmd) : Prop := c_lock c = false /\ c_flag c = 0.
+Definition sub_action (a : action) : Prop :=
+  match a with
+  | AReq _ c => sub_lock c \/ sub_unlock c
+  | AAdvance k => (0 <= k)%Z
+  | ASweepT | ASweepE => True
+  | AAck _ _ | ARole _ => False
+  end.
+
+Lemma sub_lock_simple c : sub_lock c -> lock_simple c.
+Proof. intros (A1 & A2 & A3 & A4 & (_ & U2 & _) & _ & _ & _ & A9). unfold lock_simple. csplit; auto. Qed.
+
+Record astep (s : db) (L : ledger) (s' : db) (recs : list aofrec) : Prop := mkAstep {
+  as_ws : WS s';
+  as_wl : WL s' (fold_left lstep recs L);
+  as_wb : wb L recs;
+  as_ct : Forall (fun r => (a_ctime r <= now s')%Z) recs;
+  as_now : (now s <= now s')%Z;
+  as_next : next s <= next s' <= next s + 1 }.
+
+Lemma wstep_astep s L s' recs : wstep s L s' recs -> astep s L s' recs.
+Proof.
+  intros [A1 A2 A3 A4 A5 A6]. split; auto.
+  - rewrite (ss_now _ _ A5). exact A4.
+  - rewrite (ss_now _ _ A5). lia.
+Qed.
+
+(* ------------------------------------------------------------------ Lock *)
+Lemma lock_ok s L conn c :
+  WS s -> WL s L -> sub_lock c -> next s + 1 < B32 ->
+  exists s' ev, step s (AReq conn c) = (s', ev) /\ wstep s L s' (aofs_of ev).
+Proof.
+  intros H HL Hsub Hb. pose proof (sub_lock_simple c Hsub) as Hsimple.
+  destruct Hsub as (C1 & C2 & C3 & C4 & C5 & C6 & C7 & C8 & C9).
+  pose proof (ws_shape _ H) as Hsh.
+  assert (Hmode : mode_ok s (c_flag c)) by (left; split; [apply (ws_leader _ H)|exact C2]).
+  rewrite step_areq, C1.
+  assert (Hcases : key_free s (c_key c) \/
+                   exists m cur lc, aget (mgrs s) (c_key c) = Some m /\ m_cur m = Some cur /\ aget (store s) cur = Some lc).
+  { unfold key_free. destruct (aget (mgrs s) (c_key c)) as [m|] eqn:Em; [|left; exact I].
+    destruct (sh_mgr _ Hsh _ _ Em) as (B1 & B2 & B3 & B4). destruct (m_cur m) as [cur|] eqn:Ec.
+    - right. destruct B4 as (_ & lc & Hc & _). exists m, cur, lc. auto.
+    - left. auto. }
+  destruct Hcases as [Hkf|(m & cur & lc & Em & Ec & Hc)].
+  - (* free key: grant *)
+    rewrite (lock_step_grant s conn c Hsimple Hmode ltac:(lia) Hkf).
+    pose proof (expiry_deadline_seconds c (now s) C5) as ED.
+    destruct (grant_path_spec s conn c Hsimple Hmode Hkf (shape_fresh s Hsh) (proj1 (getm_shape_data s (c_key c) Hsh)))
+      as (s' & ev & l' & m' & P & R & L1 & L2 & L3 & L4 & L5 & L6 & L7 & L8 & FR & FM & W & SS & NX & M & M1 & M2 & M3 & M4 & M5 & M6 & M7 & EM).
+    { rewrite ED. pose proof (ws_check _ H). lia. } { rewrite ED. lia. }
+    rewrite P. cbn [finish]. exists s', ev. split; [reflexivity|].
+    assert (WS' : WS s') by (apply (ws_grant s s' c l' m'); auto).
+    assert (PF : forall r0 l0, r0 <> next s -> (pheld s' r0 l0 <-> pheld s r0 l0)).
+    { intros r0 l0 Hne. unfold pheld. rewrite (FR r0 Hne). tauto. }
+    assert (Hnew : forall l0, ~ pheld s (next s) l0).
+    { intros l0 (R0 & _). rewrite (shape_fresh s Hsh) in R0. discriminate. }
+    destruct EM as [(EV & Hi)|(Hld & _ & Hi & EV)]; rewrite EV.
+    + apply mkWstep; cbn [fold_left wb]; [exact WS'| |exact I|constructor|exact SS|lia].
+      apply (wl_frame s s' L HL).
+      * intros r0 l0 P0. assert (r0 <> next s) by (intros ->; apply (Hnew l0 P0)).
+        exists l0. split; [apply PF; assumption|]. auto.
+      * intros r0 l0 P0. assert (r0 <> next s).
+        { intros ->. destruct P0 as (R0 & _ & Q). rewrite R in R0. injection R0 as <-. rewrite Hi, C2 in Q. discriminate. }
+        exists l0. split; [apply PF; assumption|reflexivity].
+    + set (e := lock_rec_of l' (now s) None).
+      assert (Wr' : wrec s' l') by (apply (ws_rec _ WS' _ _ R)).
+      destruct (lock_rec_fields s' l' (now s) Wr' L6 ltac:(congruence) ltac:(rewrite L4, L5, ED; lia))
+        as (F1 & F2 & F3 & F4 & F5 & F6 & F7 & F8). cbv zeta in *. fold e in F1, F2, F3, F4, F5, F6, F7, F8.
+      assert (P' : pheld s' (next s) l') by (split; [exact R|split; assumption]).
+      assert (Hn : aget L (a_key e) = None).
+      { destruct (aget L (a_key e)) as [e0|] eqn:Ee; [|reflexivity]. exfalso.
+        destruct (wl_a _ _ HL _ _ Ee) as (r1 & l1 & (R1 & Q1 & _) & Hk1 & _).
+        destruct (sh_rec _ Hsh _ _ R1) as (_ & _ & _ & _ & [[Z _]|(_ & _ & m1 & Hm1 & Hc1)]); [lia|].
+        assert (Ek : l_key l1 = c_key c) by (rewrite Hk1, F3, L2; reflexivity).
+        unfold key_free in Hkf. rewrite Ek in Hm1. rewrite Hm1 in Hkf. destruct Hkf as (_ & Z & _). congruence. }
+      apply mkWstep.
+      * exact WS'.
+      * cbn [fold_left]. apply (wl_add s s' L (next s) l' e HL P').
+        -- exists (now s). split; [reflexivity|]. rewrite L4, L5, ED. lia.
+        -- rewrite F3, L2. symmetry. exact L1.
+        -- exact F2.
+        -- intros r0 l0 Hne P0. exists l0. split; [apply PF; assumption|]. auto.
+        -- intros r0 l0 Hne P0. exists l0. split; [apply PF; assumption|reflexivity].
+        -- exact Hnew.
+      * cbn [wb]. split; [|exact I]. unfold wb_rec. change (a_lock e) with true. cbv iota. split; [exact Hn|exact F1].
+      * constructor; [change (a_ctime e <= now s)%Z; rewrite F6; lia|constructor].
+      * exact SS.
+      * lia.
+  - (* held key *)
+    destruct (sh_mgr _ Hsh _ _ Em) as (B1 & B2 & B3 & B4). rewrite Ec in B4. destruct B4 as (B4 & lc' & Hc' & Hkc & Hlc).
+    rewrite Hc in Hc'. injection Hc' as <-.
+    destruct (sh_rec _ Hsh _ _ Hc) as (A1 & _).
+    destruct (N.eq_dec (c_lockid (l_cmd lc)) (c_lockid c)) as [Eid|Nid].
+    + destruct (lock_step_same s conn c m cur Hsimple Hmode C8 Em B4 Ec) as (ev & P & EV);
+        try (rewrite (getl_some _ _ _ Hc)); auto.
+      rewrite P. cbn [finish]. exists s, ev. split; [reflexivity|]. rewrite EV. apply wstep_refl; assumption.
+    + destruct (lock_step_refused s conn c m cur Hsimple Hmode C7 Em B4 Ec B1 B2) as (ev & P & EV).
+      { rewrite (getl_some _ _ _ Hc). exact Nid. }
+      rewrite P. cbn [finish]. eexists. eexists. split; [reflexivity|]. rewrite EV.
+      pose proof (ws_ref_bound s _ m H Em) as Rb.
+      assert (Rnz : m_ref m <> 0).
+      { pose proof (proj1 (ws_cnt _ H) _ _ Em). pose proof (key_cnt_pos (c_key c) _ cur lc Hc Hkc). lia. }
+      destruct (refuse_state_spec s conn c m Em (shape_fresh s Hsh) ltac:(unfold B32 in *; lia) Rnz) as (G1 & G2 & G3 & G4 & G5).
+      cbv zeta in *. set (s' := refuse_state s conn c) in *.
+      apply mkWstep; cbn [fold_left wb]; [| |exact I|constructor|exact G4|lia].
+      * apply (ws_ext s s' H); auto. apply G3, (sh_awf _ Hsh). lia.
+      * destruct HL as [A B]. split; unfold pheld in *.
+        -- intros k e He. destruct (A k e He) as (r0 & l0 & (R0 & Q) & Z). exists r0, l0. rewrite G1. auto.
+        -- intros r0 l0 (R0 & Q). rewrite G1 in R0. apply (B r0 l0). auto.
+Qed.
+
+(* ------------------------------------------------------------------ UnLock *)
+Lemma unlock_ok s L conn c :
+  WS s -> WL s L -> sub_unlock c -> next s < B32 ->
+  exists s' ev, step s (AReq conn c) = (s', ev) /\ wstep s L s' (aofs_of ev).
+Proof.
+  intros H HL (C1 & C2) Hb. pose proof (ws_shape _ H) as Hsh.
+  rewrite step_areq, C1.
+  assert (Hus : unlock_simple c) by (unfold unlock_simple, has_udata_flag; rewrite C2; repeat split).
+  assert (Hum : umode s c) by (unfold umode; rewrite (ws_leader _ H); reflexivity).
+  assert (Herr : (match aget (mgrs s) (c_key c) with
+                  | None => True
+                  | Some m => m_locked m = 0 \/
+                      (m_locks m = None /\ exists cur, m_cur m = Some cur /\ c_lockid (l_cmd (getl s cur)) <> c_lockid c)
+                  end) -> exists s' ev, finish (unlock_step s conn c) = (s', ev) /\ wstep s L s' (aofs_of ev)).
+  { intros Hc. destruct (unlock_step_err s conn c Hus Hum Hc) as (ev & P & EV). rewrite P. cbn [finish].
+    exists (unlock_err s), ev. split; [reflexivity|]. rewrite EV. apply wstep_fields; auto. split; reflexivity. }
+  destruct (aget (mgrs s) (c_key c)) as [m|] eqn:Em; [|apply Herr; exact I].
+  destruct (sh_mgr _ Hsh _ _ Em) as (B1 & B2 & B3 & B4).
+  destruct (m_cur m) as [cur|] eqn:Ec; [|apply Herr; left; exact B4].
+  destruct B4 as (B4 & lc & Hc & Hkc & Hlc).
+  destruct (N.eq_dec (c_lockid (l_cmd lc)) (c_lockid c)) as [Eid|Nid].
+  - destruct (sh_rec _ Hsh _ _ Hc) as (A1 & A2 & A3 & (_ & _ & At & _) & _).
+    rewrite (unlock_step_release s conn c m cur Hum Em B4 Ec); try (rewrite (getl_some _ _ _ Hc)); auto.
+    destruct (release_path_spec s conn c cur lc m Hsh Hc Hlc Hkc Em) as (s' & ev & P & REL & EV).
+    { apply Hus. } { right. split; [apply (ws_leader _ H)|rewrite C2; reflexivity]. }
+    rewrite At, (ws_leader _ H), andb_true_r in EV.
+    change (if has 0 TF_REQUIRE_ACKED then Some cur else None) with (@None ref) in EV.
+    pose proof (wstep_released s L s' cur (c_key c) lc m (Some c) 0 H HL Hb Hc Hkc Hlc Em REL eq_refl) as WT.
+    rewrite <- EV in WT.
+    rewrite P, (finish_nowait s' ev (c_key c) (Some conn) (shape_nowait s' _ (ws_shape _ (wt_ws _ _ _ _ WT)))).
+    eexists. eexists. split; [reflexivity|]. rewrite aofs_of_nil_r. exact WT.
+  - apply Herr. right. split; [exact B1|]. exists cur. split; [reflexivity|]. rewrite (getl_some _ _ _ Hc). exact Nid.
+Qed.
+
+(* ------------------------------------------------------------------ time and sweeps *)
+Lemma wrec_mono s s' l : (now s <= now s')%Z -> wrec s l -> wrec s' l.
+Proof. intros E (W1 & W2 & W3 & W4 & (W5 & W5') & W6). unfold wrec. csplit; auto. intros Hl. destruct (W6 Hl). split; lia. Qed.
+
+Lemma advance_ok s L k : WS s -> WL s L -> (0 <= k)%Z -> astep s L (s <| now := (now s + k)%Z |>) [].
+Proof.
+  intros H HL Hk. set (s' := s <| now := (now s + k)%Z |>).
+  apply mkAstep; cbn [fold_left wb]; [| |exact I|constructor|cbn; lia|cbn; lia].
+  - split.
+    + apply (shape_ext s s' (ws_shape _ H)); reflexivity.
+    + apply (ws_leader _ H).
+    + apply (ws_tw _ H).
+    + apply (ws_tl _ H).
+    + cbn. pose proof (ws_check _ H). lia.
+    + cbn. pose proof (ws_now _ H). lia.
+    + apply (ws_cnt _ H).
+    + intros r l Hr. apply (wrec_mono s s' l); [cbn; lia|]. apply (ws_rec _ H r l Hr).
+  - apply (wl_store s s' L HL). reflexivity.
+Qed.
+
+Lemma sweep_t_secs_idle nowv n : forall s t, twheel s = [] -> tlong s = [] -> sweep_t_secs n s t nowv = (s, []).
+Proof.
+  induction n as [|n IH]; intros s t Hw Hl; [reflexivity|].
+  cbn [sweep_t_secs]. unfold collect_timeouts.
+  assert (E : sweep_t_slot (10 * length (wheel_get (twheel s) (slot_of t)) + 10) s (slot_of t) nowv [] = (s, [])).
+  { rewrite Hw. change (wheel_get [] (slot_of t)) with (@nil ref). cbn [length Nat.mul Nat.add sweep_t_slot].
+    rewrite Hw. reflexivity. }
+  rewrite E, Hl. cbn [aget fire_all]. rewrite (IH s (t + 1)%Z Hw Hl). reflexivity.
+Qed.
+
+Lemma sweep_t_ok s L : WS s -> WL s L -> exists s', step s ASweepT = (s', []) /\ astep s L s' [].
+Proof.
+  intros H HL. cbn [step]. unfold sweep_timeouts. cbv zeta.
+  set (s0 := s <| checkT := (now s + 1)%Z |>).
+  rewrite (sweep_t_secs_idle (now s) _ s0 (checkT s)); [|apply (ws_tw _ H)|apply (ws_tl _ H)].
+  exists s0. split; [reflexivity|].
+  apply mkAstep; cbn [fold_left wb]; [| |exact I|constructor|cbn; lia|cbn; lia].
+  - apply (ws_fields s s0 H); try reflexivity. apply (ws_check _ H).
+  - apply (wl_store s s0 L HL). reflexivity.
+Qed.
+
+Lemma sweep_e_ok s L : WS s -> WL s L -> next s < B32 ->
+  exists s' ev, step s ASweepE = (s', ev) /\ astep s L s' (aofs_of ev).
+Proof.
+  intros H HL Hb. cbn [step]. unfold sweep_expiries. cbv zeta.
+  set (s0 := s <| checkE := (now s + 1)%Z |>).
+  assert (H0 : WS s0) by (apply (ws_fields s s0 H); try reflexivity; cbn; lia).
+  assert (HL0 : WL s0 L) by (apply (wl_store s s0 L HL); reflexivity).
+  destruct (sweep_e_secs_ok (now s) (Z.to_nat (now s + 1 - checkE s)) s0 L (checkE s) H0 HL0 Hb eq_refl) as (s' & ev & P & W & N).
+  rewrite P. exists s', ev. split; [reflexivity|].
+  destruct (wstep_astep _ _ _ _ W) as [A1 A2 A3 A4 A5 A6]. apply mkAstep; auto.
+Qed.
+
+(* ------------------------------------------------------------------ every action of the sub-language *)
+Lemma action_ok s L a :
+  WS s -> WL s L -> sub_action a -> next s + 1 < B32 ->
+  exists s' ev, step s a = (s', ev) /\ astep s L s' (aofs_of ev).
+Proof.
+  intros H HL Ha Hb. destruct a as [conn c|k| | |r ok|b]; cbn [sub_action] in Ha; try contradiction.
+  - destruct Ha as [Hl|Hu].
+    + destruct (lock_ok s L conn c H HL Hl Hb) as (s' & ev & P & W). exists s', ev. split; [exact P|apply wstep_astep; exact W].
+    + destruct (unlock_ok s L conn c H HL Hu ltac:(lia)) as (s' & ev & P & W). exists s', ev. split; [exact P|apply wstep_astep; exact W].
+  - exists (s <| now := (now s + k)%Z |>), []. split; [reflexivity|]. apply advance_ok; assumption.
+  - destruct (sweep_t_ok s L H HL) as (s' & P & A). exists s', []. split; [exact P|exact A].
+  - apply sweep_e_ok; auto. lia.
 Qed.
